@@ -1,4 +1,5 @@
 mod cache;
+mod compat;
 mod replay;
 mod scen;
 mod sim;
@@ -46,6 +47,11 @@ fn main() {
             };
             std::fs::write(&out, serde_json::to_string(&report).unwrap()).unwrap();
             let _ = json!(null);
+        }
+        // vh compat --cases <ndjson> --out <file>
+        "compat" => {
+            let rep = compat::run_cases(&arg(&args, "--cases").expect("--cases"));
+            std::fs::write(arg(&args, "--out").expect("--out"), serde_json::to_string(&rep).unwrap()).unwrap();
         }
         // vh sim --scenarios <ndjson> --out <trace ndjson> [--start n]
         "sim" => {
